@@ -15,7 +15,9 @@ import fuzzylite as fl
 
 CONT_T = ["Minimum", "AlgebraicProduct", "BoundedDifference", "EinsteinProduct", "HamacherProduct"]
 DISC_T = ["DrasticProduct", "NilpotentMinimum"]
-CONT_S = ["Maximum", "AlgebraicSum", "BoundedSum", "EinsteinSum", "NormalizedSum", "HamacherSum", "UnboundedSum"]
+# HamacherSum is left out at engine level: (a+b-2ab)/(1-ab) is a 0/0 form near (1,1) and loses all digits in float
+# there (C04 covers it with the fragile-point rule)
+CONT_S = ["Maximum", "AlgebraicSum", "BoundedSum", "EinsteinSum", "NormalizedSum", "UnboundedSum"]
 DISC_S = ["DrasticSum", "NilpotentMaximum"]
 # norms whose float evaluation is exact on dyadic operands (no division)
 EXACT_T = ["Minimum", "AlgebraicProduct", "BoundedDifference", "DrasticProduct", "NilpotentMinimum"]
@@ -150,7 +152,7 @@ def gen_engine(rng, exact=None, activation="general", n_in=None, batch_ok=False,
                 terms.append({"name": f"o{o}t{j}", "kind": "shape", "cls": cls, "params": ps, "height": h})
             kinds = ["Centroid", "Centroid", "MeanOfMaximum", "SmallestOfMaximum", "LargestOfMaximum"] if exact else ["Centroid"]
             defuzz = {"kind": rng.choice(kinds), "resolution": rng.choice([4, 8, 16, 32] if exact else [5, 10, 20, 37])}
-            agg = rng.choice(EXACT_S[:5] if exact else CONT_S[:6])
+            agg = rng.choice(EXACT_S[:5] if exact else CONT_S[:5])
         dv = rng.choice([math.nan, math.nan, (lo + hi) / 2, hi + 1.0])
         outputs.append({"name": f"out{o}", "enabled": rng.random() < 0.92, "min": lo, "max": hi,
                         "lock_range": rng.random() < 0.3, "lock_previous": rng.random() < 0.3, "default": dv,
@@ -182,7 +184,7 @@ def gen_engine(rng, exact=None, activation="general", n_in=None, batch_ok=False,
                           "paren_seed": rng.randrange(1 << 30)})
         blocks.append({"name": f"rb{b}", "enabled": rng.random() < 0.9,
                        "conjunction": rng.choice(EXACT_T if exact else CONT_T),
-                       "disjunction": rng.choice(EXACT_S[:5] if exact else CONT_S[:6]),
+                       "disjunction": rng.choice(EXACT_S[:5] if exact else CONT_S[:5]),
                        "implication": rng.choice(EXACT_T if exact else CONT_T),
                        "activation": act, "rules": rules})
     return {"exact": exact, "inputs": inputs, "outputs": outputs, "blocks": blocks}
@@ -311,7 +313,8 @@ def gen_rows(rng, desc, n, special=True):
                 elif r < 0.65:
                     v = rng.choice([lo, hi])
                 elif r < 0.8:
-                    ps = [p for t in iv["terms"] if t["kind"] == "shape" for p in t["params"] if math.isfinite(p)]
+                    ps = [p for t in iv["terms"] if t["kind"] == "shape" for p in t["params"]
+                          if math.isfinite(p) and lo - (hi - lo) <= p <= hi + (hi - lo)]   # location parameters only
                     v = rng.choice(ps) if ps else lo
                 elif r < 0.9:
                     v = rng.choice([lo - 0.37 * (hi - lo), hi + 0.21 * (hi - lo)])
